@@ -35,6 +35,9 @@ type Check struct {
 	// Sequential checks run all units in one process (they spawn their own
 	// sub-processes, e.g. the scheduler build of C18).
 	Sequential bool
+	// WorkerBin, if set, names the binary (next to the driver) that runs the
+	// workers of this check (the instrumented build for C18).
+	WorkerBin string
 }
 
 var registry = map[string]*Check{}
